@@ -2,8 +2,8 @@
 
 A *fake solver* is a small ``sh`` script generated per case.  It
 
-* exits 0 on ``--help`` without touching anything (``some_solver_installed``
-  probes the solver that way and never waits for the probe);
+* exits 0 on ``--help`` (and ``-h``, ``--version``, ...) without touching anything
+  (``some_solver_installed`` probes the solver that way and never waits for the probe);
 * otherwise appends its name to ``<cap>/calls``, writes its arguments to
   ``<cap>/<name>.args`` (one per line), copies the DIMACS text it received (file
   argument or standard input) to ``<cap>/<name>.in``;
@@ -74,7 +74,17 @@ _CAT = shutil.which('cat') or '/bin/cat'
 _SH = '/bin/sh'
 
 
+_TAIL = None
+
+
 def _clean_path_tail():
+    global _TAIL
+    if _TAIL is None:
+        _TAIL = _compute_path_tail()
+    return list(_TAIL)
+
+
+def _compute_path_tail():
     """The original PATH without the directories that contain a program called like
     a supported solver (so that the set of installed solvers is exactly the generated
     one even on a machine that has a real solver)."""
@@ -274,7 +284,7 @@ def script_text(behaviour, capdir, verdict, model, shape, n):
         '#!' + _SH,
         'me=${0##*/}',
         'cap=' + _q(capdir),
-        'for a in "$@"; do [ "$a" = "--help" ] && exit 0; done',
+        'for a in "$@"; do case "$a" in --help|-h|-help|--version|-version|-V) exit 0 ;; esac; done',
         'in=; out=',
         ': > "$cap/$me.args"',
         'for a in "$@"; do',
